@@ -136,7 +136,7 @@ Definition bytesA : list Z := concat (map (fun t => q_F (t_A t)) its).
 Definition U : list Z := concat (map pk_unknown unk).
 Definition dufs : list ufield := dufs_of (map segA (filter (fun t => negb (t_k t)) its)).
 
-Hypothesis Hlen : zlen (bytesA ++ U) <= 2147483647.
+Hypothesis Hlen : zlen (bytesA ++ U) <= max_input.
 
 Lemma D_md : desc_ok (length E) md = true.
 Proof. exact (env_desc E EO d md Ed). Qed.
@@ -213,7 +213,7 @@ Lemma item_len_small : forall t, In t its -> zlen (q_F (t_A t)) < 4294967296 /\ 
 Proof.
   intros t Hin. pose proof (in_concat_le _ (fun t0 => q_F (t_A t0)) its t Hin) as H1. fold bytesA in H1.
   rewrite zlen_app in Hlen. pose proof (zlen_nonneg _ U).
-  pose proof lenC_A as HL. rewrite Forall_forall in HL. specialize (HL t Hin). unfold zlen in *. lia.
+  pose proof lenC_A as HL. rewrite Forall_forall in HL. specialize (HL t Hin). unfold zlen in *. (unfold max_input, max_members in *; lia).
 Qed.
 
 (* ---- the segments are records for the two descriptors *)
@@ -334,13 +334,13 @@ Proof.
       apply filter_In in Hg. apply in_map. tauto.
     - pose proof (in_concat_le _ seg_bytes usegs (b, id, recs) Hs) as Hle. rewrite Hub in Hle. fold U in Hle.
       unfold seg_bytes, sg_id, sg_recs in Hle. cbn [fst snd] in Hle.
-      rewrite zlen_app in Hlen. pose proof (zlen_nonneg _ bytesA). lia. }
+      rewrite zlen_app in Hlen. pose proof (zlen_nonneg _ bytesA). (unfold max_input, max_members in *; lia). }
   assert (Hb : bytesA ++ U = concat (map seg_bytes (map segA its)) ++ concat (map seg_bytes usegs)).
   { unfold bytesA, U. rewrite bytesA_segs, Hub. reflexivity. }
   pose proof (unpack_segs_reorder (older keep E) EO' k d _ (map segA its) usegs Ed' segA_ok HusA indepA
-                ltac:(rewrite <- Hb; lia)) as HR.
+                ltac:(rewrite <- Hb; (unfold max_input, max_members in *; lia))) as HR.
   rewrite <- Hb in HR. rewrite (sortedA_eq usegs Hub) in HR.
-  assert (Hlen2 : zlen (concat (map q_F (map t_A (filter t_k its))) ++ concat (map pk_unknown (dufs ++ unk))) <= 2147483647).
+  assert (Hlen2 : zlen (concat (map q_F (map t_A (filter t_k its))) ++ concat (map pk_unknown (dufs ++ unk))) <= max_input).
   { rewrite <- (sortedA_eq usegs Hub).
     assert (HL : length (concat (map seg_bytes (filter sg_k (map segA its))) ++
                          concat (map seg_bytes (filter (fun s => negb (sg_k s)) (map segA its))) ++ concat (map seg_bytes usegs)) =
@@ -409,13 +409,13 @@ Proof.
     apply (seg_ok_unknown (length E) _ D_md b id recs Hid Hex Hrok).
     pose proof (in_concat_le _ seg_bytes usegs (b, id, recs) Hs) as Hle. rewrite Hub in Hle. fold U in Hle.
     unfold seg_bytes, sg_id, sg_recs in Hle. cbn [fst snd] in Hle.
-    rewrite zlen_app in Hlen. pose proof (zlen_nonneg _ bytesA). lia. }
+    rewrite zlen_app in Hlen. pose proof (zlen_nonneg _ bytesA). (unfold max_input, max_members in *; lia). }
   assert (Hb : concat (map (fun t => q_F (t_C t)) its) ++ U = concat (map seg_bytes (map segC its)) ++ concat (map seg_bytes usegs)).
   { unfold U. rewrite bytesC_segs, Hub. reflexivity. }
-  assert (Hl2 : zlen (concat (map (fun t => q_F (t_C t)) its) ++ U) <= 2147483647).
+  assert (Hl2 : zlen (concat (map (fun t => q_F (t_C t)) its) ++ U) <= max_input).
   { rewrite zlen_app in *. unfold zlen in *. lia. }
   pose proof (unpack_segs_reorder E EO k d md (map segC its) usegs Ed segC_ok HusC indepC
-                ltac:(rewrite <- Hb; lia)) as HR.
+                ltac:(rewrite <- Hb; (unfold max_input, max_members in *; lia))) as HR.
   rewrite <- Hb in HR. rewrite (sortedC_eq usegs Hub) in HR.
   pose proof (unpack_quads E EO k d md um unk (map t_C its) Ed) as UQ.
   rewrite !map_map in UQ. unfold U in HR. rewrite UQ in HR.
